@@ -73,11 +73,22 @@ theorem results_eq_spec (f : Function) :
 
 /-! ## names, pointer-ness and qualified types are those of the method (`createVar`) -/
 
-/-- declared names win, defaults `src`/`dst` (swapped under `:reverse`) and `arg<i>` otherwise -/
+/-- declared names win, defaults `src`/`dst` (swapped under `:reverse`) and `arg<i>` otherwise — also
+for the blank name `_`, which a function body cannot refer to -/
 theorem createVar_name (env : Env) (v : ParamVar) (d : String) :
-    (createVar env v d).name = (if v.name == "" then d else v.name) ∧
+    (createVar env v d).name = (if v.name == "" || v.name == "_" then d else v.name) ∧
     (createVar env v d).pointer = env.isPtr v.ty ∧
     (createVar env v d).typ = env.typeNameF (env.derefPtr v.ty) := ⟨rfl, rfl, rfl⟩
+
+/-- no variable of a generated function is called `_` unless its default name is -/
+theorem createVar_not_blank (env : Env) (v : ParamVar) (d : String) (hd : d ≠ "_") :
+    (createVar env v d).name ≠ "_" := by
+  simp only [createVar]
+  split
+  · exact hd
+  · rename_i h
+    simp only [Bool.or_eq_true, beq_iff_eq, not_or] at h
+    exact h.2
 
 /-- the type text is the package-qualified name of the operand type: the import's name in the setup
 file for an imported named type, the bare name for a local one and for one of a dot-imported package -/
